@@ -1,3 +1,5 @@
+import re
+
 from prophyc import model
 from prophyc.model import DISC_SIZE, BUILTIN_SIZES
 from prophyc.generators.base import GenerateError, GeneratorBase, TranslatorBase
@@ -171,6 +173,12 @@ HPP_HEADER_TEMPLATE = """\
 
 class _HppTranslator(TranslatorBase):
     block_template = HPP_HEADER_TEMPLATE
+
+    @classmethod
+    def _block_post_process(cls, content, base_name, nodes):
+        # the file name serves as include guard: whatever cannot be part of a macro name becomes an underscore
+        guard = re.sub(r"\W", "_", base_name)
+        return super(_HppTranslator, cls)._block_post_process(content, guard, nodes)
     prerequisite_translators = [
         _HppIncludesTranslator,
         _HppDefinitionsTranslator
